@@ -63,7 +63,9 @@ class Route:
         self.pattern_out = pattern_out
         self.filters_out = filters_out
 
-    def url(self, *args, **kw):
+    def url(*args, **kw):
+        # self is taken from *args: a wildcard of the rule may be named 'self'
+        self, *args = args
 
         params = self.params
         if not params:
